@@ -91,6 +91,13 @@ func genC19Ops(g *Gen, n int) []Op {
 			ops = append(ops, mkOp(1, "SELECT", g.pick("0", "1", "2")))
 		case x < 11:
 			ops = append(ops, mkOp(1, g.pick("FLUSHDB", "FLUSHDB", "FLUSHALL")))
+		case x < 19:
+			// values the snapshot encoding may treat as "absent": the empty key name, the empty string, empty
+			// elements, fields, members; zero-looking numbers
+			k := g.key()
+			ops = append(ops, [](Op){mkOp(1, "SET", "", "value-of-the-empty-name", "EX", "3600"), mkOp(1, "RPUSH", "", "x", ""), mkOp(1, "SET", k, ""), mkOp(1, "RPUSH", k, "", "a", ""),
+				mkOp(1, "HSET", k, "", "empty-field", "f", ""), mkOp(1, "SADD", k, "", "m"), mkOp(1, "SET", k, "0"), mkOp(1, "HSET", "", "", ""), mkOp(1, "SADD", "", ""), mkOp(1, "DEL", ""),
+				mkOp(1, "SET", k, "\x00"), mkOp(1, "LSET", k, "0", "")}[g.r.Intn(12)])
 		case x < 55:
 			// in-place changes, deletions and expiry changes are what a lazy dirty flag forgets
 			ops = append(ops, g.typedWrite(1, g.key()))
